@@ -7,7 +7,7 @@ import zlib
 import refcodec
 from lib import hx
 
-EXTRA_PROPS = ['C01Dispatch', 'C01DispatchLive', 'C01Buffer', 'C01BufferFrame']
+EXTRA_PROPS = ['C01Dispatch', 'C01DispatchLive', 'C01Buffer', 'C01BufferFrame', 'C01BufferRefine']
 
 EXTRACT = ['gen.c01dispatch']
 
@@ -463,6 +463,7 @@ def run(ctx):
                           key={'kind': 'after-failed-serialise', 'k': kind, 'thr': thr})
     dispatch_tie(ctx)
     buffer_tie(ctx)
+    buffer_trace_tie(ctx)
 
 
 def dispatch_tie(ctx):
@@ -764,8 +765,11 @@ def buffer_tie(ctx):
     for i in range(ctx.scale(150, 2500)):
         ops, expect = [], []
         sent = b''
-        for _ in range(rng.randrange(1, 5)):
+        for j in range(rng.randrange(1, 5)):
             v = blob()
+            if j:                             # loop test + size of the next read: two get_writable calls
+                ops.append(('g',))
+                expect.append(sent)
             ops += [('s', v), ('g',)]
             sent += v
             expect.append(sent)
@@ -802,6 +806,130 @@ def buffer_tie(ctx):
                 ctx.disagree('pbuf.run vs the real PacketBuffer', line[:400], m[:300], w[:300])
         elif m != w:
             ctx.count('buffer_tie.free.differs-from-model(recorded, not judged)')
+
+
+def buffer_trace_tie(ctx):
+    """Props/C01BufferRefine: the operations the REAL `read_packet` issues on its PacketBuffer (recorded by a
+    subclass that only observes) are (1) matched against the shape `readPacketBuf` / `C01BufferFrame` assume --
+    `send get_writable (get_writable send get_writable)* reset_cursor [read(1)* read() reset send reset_cursor] reads…` -- and (2) replayed on
+    the buffer model (`pbuf.run`), whose returned byte strings must be the ones the live buffer returned.  A
+    trace outside the shape (a rewritten caller) is replayed too but only recorded."""
+    import re
+    import minecraft.networking.connection as C
+    from minecraft.networking import packets as P
+    from minecraft.networking.packets import Packet
+    from minecraft.networking.types import TrailingByteArray, VarInt, String
+    rng = ctx.rng
+    orig = P.PacketBuffer
+    traces = []
+
+    def hx(b):
+        return b.hex() or '-'
+
+    class Spy(orig):
+        def __init__(self):
+            orig.__init__(self)
+            self.tr = []
+            traces.append(self.tr)
+
+        def send(self, v):
+            self.tr.append(('s', bytes(v)))
+            return orig.send(self, v)
+
+        def read(self, length=None):
+            out = orig.read(self, length)
+            self.tr.append(('r', length, bytes(out)))
+            return out
+
+        def recv(self, length=None):          # recv -> read: recorded once, by read
+            return orig.recv(self, length)
+
+        def reset(self):
+            self.tr.append(('R',))
+            return orig.reset(self)
+
+        def reset_cursor(self):
+            self.tr.append(('c',))
+            return orig.reset_cursor(self)
+
+        def get_writable(self):
+            out = orig.get_writable(self)
+            self.tr.append(('g', bytes(out)))
+            return out
+
+    class Known(Packet):
+        id = 0x21
+        definition = [{'a': VarInt}, {'s': String}, {'rest': TrailingByteArray}]
+
+    class Reactor(C.PacketReactor):
+        get_clientbound_packets = staticmethod(lambda context: {Known})
+
+    saved = (P.PacketBuffer, C.select)
+    C.select = types.SimpleNamespace(select=lambda r, w, x, t=None: (list(r), [], []))
+    jobs = []
+    try:
+        for i in range(ctx.scale(120, 2000)):
+            thr = [None, -1, 0, 1, 16, 300][i % 6]
+            if rng.random() < 0.6:
+                p = Known()
+                p.a = rng.choice([0, 1, 127, 128, 2 ** 31 - 1])
+                p.s = ''.join(rng.choice('abé中') for _ in range(rng.choice([0, 1, 5, 40])))
+                p.rest = bytes(rng.randrange(256) for _ in range(rng.choice([0, 1, 20, 400])))
+            else:
+                p = Packet()
+                p.id = rng.choice([2, 0x55, 300])
+                p.definition = [{'payload': TrailingByteArray}]
+                p.payload = bytes(rng.randrange(256) for _ in range(rng.choice([0, 1, 20, 400])))
+            p.context = C.ConnectionContext(protocol_version=757)
+            P.PacketBuffer = orig
+            w = Sock()
+            p.write(w) if thr is None else p.write(w, thr)
+            wire = b''.join(w.sends)
+            cuts = sorted(rng.randrange(len(wire) + 1) for _ in range(rng.choice([0, 1, 2, 5])))
+            segs = [wire[a:b] for a, b in zip([0] + cuts, cuts + [len(wire)])]
+            conn = types.SimpleNamespace(context=C.ConnectionContext(protocol_version=757),
+                                         options=types.SimpleNamespace(compression_enabled=thr is not None,
+                                                                       compression_threshold=-1 if thr is None else thr))
+            P.PacketBuffer = Spy
+            del traces[:]
+            try:
+                Reactor(conn).read_packet(SegStream(segs), timeout=0)
+                end = 'ok'
+            except Exception as e:
+                end = ename(e)
+            P.PacketBuffer = orig
+            for tr in traces:
+                jobs.append((list(tr), thr is not None, end))
+    finally:
+        P.PacketBuffer, C.select = saved
+    shape = re.compile(r'^sg(gsg)*c(r*aRsc)?[ra]*$')
+    lines = []
+    for tr, comp, end in jobs:
+        toks = []
+        for op in tr:
+            if op[0] == 's':
+                toks.append('s:' + hx(op[1]))
+            elif op[0] == 'r':
+                toks.append('r:*' if op[1] is None else 'r:%d' % op[1])
+            else:
+                toks.append(op[0])
+        lines.append('pbuf.run ' + ' '.join(toks))
+    for (tr, comp, end), line, m in zip(jobs, lines, ctx.driver.ask(lines)):
+        kinds = ''.join('a' if (op[0] == 'r' and op[1] is None) else op[0] for op in tr)
+        outs = [op[-1] for op in tr if op[0] in 'rg']
+        inshape = bool(shape.match(kinds)) and all(op[1] is None or op[1] >= 0 for op in tr if op[0] == 'r')
+        ctx.case(('pbuf.trace', line), sample={'op': 'pbuf.trace', 'impl': kinds[:80]} if len(kinds) > 8 else None)
+        ctx.count('buffer_trace_tie.' + ('in-shape' if inshape else 'outside-shape(recorded)'))
+        if not inshape and ctx.extra.setdefault('buffer_trace_outside_samples', []) is not None and len(ctx.extra['buffer_trace_outside_samples']) < 5:
+            ctx.extra['buffer_trace_outside_samples'].append(kinds[:120])
+        ctx.count('buffer_trace_tie.compressed-episode' if 'aRsc' in kinds else 'buffer_trace_tie.plain')
+        got = m.split()[3:] if m.startswith('ok ') else None
+        if got != [hx(o) for o in outs]:
+            if inshape:
+                ctx.disagree('pbuf.run replay of the operations read_packet issued on its PacketBuffer', line[:400],
+                             m[:300], ' '.join(hx(o) for o in outs)[:300])
+            else:
+                ctx.count('buffer_trace_tie.differs-from-model(recorded, not judged)')
 
 
 def pkts_by_pos(pkts, k):
